@@ -25,6 +25,8 @@ func init() {
 			ruleSizeLaw(c)
 			ruleFrame(c)
 			ruleEmitLemmas(c)
+			// a value decoded into uncleared scratch or a re-used slot is not the value that was encoded
+			ruleClearBeforeRead(c)
 		},
 	})
 }
